@@ -624,6 +624,83 @@ theorem runBlock_ext_irrelevant (cs : CharSpec) (e₁ e₂ : Ext) (oldStyle : Bo
   rw [this]
   rfl
 
+/-- `parse_block` without the MODES clause: a `>>` entry is kept exactly when `oldStyle` -/
+def parseBlockNoModes (oldStyle : Bool) : P α Unit := do
+  let r : Option (Ev α) ← (do
+    match ← peekK with
+    | some .metaStart => withRecover do
+      match ← metadataEntry with
+      | some (.metadata key value) =>
+        if oldStyle then return some (.metadata key value) else return none
+      | _ => return none
+    | some .eq => withRecover sectionP
+    | _ => return none)
+  match r with
+  | some ev => pushEv ev
+  | none => parseMultilineBlock
+
+theorem withRecover_congr {β : Type} {f g : P α (Option β)} {s : BP α} (h : f s = g s) :
+    withRecover f s = withRecover g s := by
+  rw [withRecover_run, withRecover_run, h]
+
+/-- with MODES off `parse_block` keeps or drops a `>>` entry (bracketed key or not) only according
+    to `oldStyle` -/
+theorem parseBlock_modes_off (oldStyle : Bool) (s : BP α) (h : s.ext.has Gen.EXT_MODES = false) :
+    parseBlock (α := α) oldStyle s = parseBlockNoModes oldStyle s := by
+  unfold parseBlock parseBlockNoModes
+  rw [P_bind_run, P_bind_run]
+  have hr : ∀ (k : Option TK),
+      (match k with
+        | some .metaStart => withRecover do
+          match ← metadataEntry with
+          | some (.metadata key value) =>
+            let cs := (← get).cs
+            let modes ← hasExt Gen.EXT_MODES
+            if (isConfigKey cs key && modes) || oldStyle then return some (.metadata key value) else return none
+          | _ => return none
+        | some .eq => withRecover sectionP
+        | _ => return none : P α (Option (Ev α))) s =
+      (match k with
+        | some .metaStart => withRecover do
+          match ← metadataEntry with
+          | some (.metadata key value) =>
+            if oldStyle then return some (.metadata key value) else return none
+          | _ => return none
+        | some .eq => withRecover sectionP
+        | _ => return none : P α (Option (Ev α))) s := by
+    intro k
+    split
+    · apply withRecover_congr
+      have he := (metadataEntry_indA.all s).ext_eq
+      have : ∀ (m : Option (Ev α)) (s1 : BP α), s1.ext.has Gen.EXT_MODES = false →
+          (match m with
+            | some (.metadata key value) => do
+              let cs := (← get).cs
+              let modes ← hasExt Gen.EXT_MODES
+              if (isConfigKey cs key && modes) || oldStyle then return some (.metadata key value) else return none
+            | _ => return none : P α (Option (Ev α))) s1 =
+          (match m with
+            | some (.metadata key value) =>
+              if oldStyle then return some (.metadata key value) else return none
+            | _ => return none : P α (Option (Ev α))) s1 := by
+        intro m s1 h1
+        split
+        · show (if (isConfigKey s1.cs _ && s1.ext.has Gen.EXT_MODES || oldStyle) = true then _ else _ :
+            P α (Option (Ev α))) s1 = _
+          rw [h1, Bool.and_false, Bool.false_or]
+        · rfl
+      rw [P_bind_run, P_bind_run]
+      exact this _ _ (by rw [he]; exact h)
+    · rfl
+    · rfl
+  have hp : peekK s = ((s.toks[s.cur]?).map (·.kind), s) := rfl
+  rw [P_bind_run, P_bind_run, hp]
+  have hr' := hr (Option.map (fun x => x.kind) s.toks[s.cur]?)
+  exact congrArg (fun r : Option (Ev α) × BP α =>
+    (match r.1 with
+      | some ev => pushEv ev
+      | none => parseMultilineBlock : P α Unit) r.2) hr'
+
 /-! ### All blocks of an input -/
 
 /-- the token stream `PullParser` splits into blocks (after the front matter, if any) -/
